@@ -2,11 +2,13 @@ package main
 
 import (
 	"bytes"
+	"context"
 	"crypto/sha256"
 	"encoding/base64"
 	"fmt"
 	"github.com/jcmturner/gokrb5/v8/keytab"
 	"io"
+	"net"
 	"net/http"
 	"net/http/httptest"
 	"net/url"
@@ -192,6 +194,7 @@ func c18(c *Ctx) {
 		method  string
 		bodyLen int
 		spn     string // "" = derived from the URL
+		rooted  bool   // URL-derived, and the URL names the first server as  host.test.gokrb5.:<port>  (rooted name with a port)
 		et      int32
 		readAll bool
 	}
@@ -238,6 +241,7 @@ func c18(c *Ctx) {
 		}
 		if i%4 == 0 {
 			scs[i].spn = ""
+			scs[i].rooted = i%8 == 4
 		} else {
 			scs[i].spn = "HTTP/host.test.gokrb5"
 		}
@@ -259,7 +263,24 @@ func c18(c *Ctx) {
 		ss.srvA = httptest.NewServer(ss.handler(0))
 		ss.srvB = httptest.NewServer(ss.handler(1))
 		oc := clients[sc.et]
-		hc := spnego.NewClient(oc.cl, &http.Client{Timeout: 20 * time.Second}, sc.spn)
+		hcl := &http.Client{Timeout: 20 * time.Second}
+		startURL := ss.srvA.URL + "/start"
+		if sc.rooted {
+			// the first server is reached under its rooted DNS name with an explicit port (no resolver here: the dialer
+			// knows the address, the CNAME look-up fails): the SPN derived is HTTP/host.test.gokrb5, without the dot
+			addrA := strings.TrimPrefix(ss.srvA.URL, "http://")
+			_, portA, _ := net.SplitHostPort(addrA)
+			startURL = "http://host.test.gokrb5.:" + portA + "/start"
+			hcl.Transport = &http.Transport{DialContext: func(ctx context.Context, network, addr string) (net.Conn, error) {
+				if strings.HasPrefix(addr, "host.test.gokrb5") {
+					addr = addrA
+				}
+				var d net.Dialer
+				return d.DialContext(ctx, network, addr)
+			}}
+			c.Count("spn:url-derived-rooted-host-with-port")
+		}
+		hc := spnego.NewClient(oc.cl, hcl, sc.spn)
 		var body []byte
 		var rdr io.Reader
 		if sc.bodyLen > 0 {
@@ -273,7 +294,7 @@ func c18(c *Ctx) {
 				c.Count("body:unknown-length")
 			}
 		}
-		req, _ := http.NewRequest(sc.method, ss.srvA.URL+"/start", rdr)
+		req, _ := http.NewRequest(sc.method, startURL, rdr)
 		var resp *http.Response
 		var err error
 		done := make(chan struct{})
@@ -283,13 +304,13 @@ func c18(c *Ctx) {
 				// every fourth script goes through the convenience wrappers (the same exchange by another door)
 				switch {
 				case si%4 == 3 && sc.method == "GET":
-					resp, err = hc.Get(ss.srvA.URL + "/start")
+					resp, err = hc.Get(startURL)
 					c.Count("via:Get")
 				case si%4 == 3 && sc.method == "HEAD":
-					resp, err = hc.Head(ss.srvA.URL + "/start")
+					resp, err = hc.Head(startURL)
 					c.Count("via:Head")
 				case si%4 == 3 && sc.method == "POST" && rdr != nil:
-					resp, err = hc.Post(ss.srvA.URL+"/start", "application/octet-stream", rdr)
+					resp, err = hc.Post(startURL, "application/octet-stream", rdr)
 					c.Count("via:Post")
 				default:
 					resp, err = hc.Do(req)
@@ -403,6 +424,14 @@ func c18(c *Ctx) {
 			if err := k5.Unmarshal(st.NegTokenInit.MechTokenBytes); err != nil || !k5.IsAPReq() {
 				c.Check(false, "the mechanism token is a KRB5 AP-REQ", "token-not-apreq", fmt.Sprint(err), inp)
 				continue
+			}
+			if sc.rooted {
+				// per request: the first server goes by its name, the other one by its address
+				if strings.HasPrefix(r.host, "host.test.gokrb5") {
+					spnName, svc = "HTTP/host.test.gokrb5", svcHost
+				} else {
+					spnName, svc = "HTTP/127.0.0.1", svcIP
+				}
 			}
 			m := oc.tickets[spnName]
 			ar := k5.APReq
